@@ -24,11 +24,12 @@ type verifDatagram struct {
 // verifPacketConn: recording net.PacketConn. mode: 0 ok, 1 generic error,
 // 2 io.ErrClosedPipe.
 type verifPacketConn struct {
-	sent   []verifDatagram
-	closed int
-	mode   int
-	short  int
-	local  net.Addr
+	sent       []verifDatagram
+	closed     int
+	mode       int
+	short      int
+	local      net.Addr
+	closeFails bool // Close reports an error (it still closes)
 }
 
 var errVerifWrite = io.ErrNoProgress
@@ -46,7 +47,13 @@ func (c *verifPacketConn) WriteTo(p []byte, addr net.Addr) (int, error) {
 	c.sent = append(c.sent, verifDatagram{cp, addr})
 	return len(p) - c.short, nil
 }
-func (c *verifPacketConn) Close() error                       { c.closed++; return nil }
+func (c *verifPacketConn) Close() error {
+	c.closed++
+	if c.closeFails {
+		return errVerifWrite
+	}
+	return nil
+}
 func (c *verifPacketConn) LocalAddr() net.Addr                { return c.local }
 func (c *verifPacketConn) SetDeadline(t time.Time) error      { return nil }
 func (c *verifPacketConn) SetReadDeadline(t time.Time) error  { return nil }
